@@ -64,6 +64,12 @@ DECLARED = [
     ("BOOLEAN", BOOLEAN, None, None), ("DATE", DATE, None, None), ("TIME", TIME, None, None), ("TIMESTAMP_NTZ", TS_NTZ, None, None),
     ("DATETIME", TS_NTZ, None, None), ("TIMESTAMP", TS_NTZ, None, None), ("TIMESTAMP_TZ", TS_TZ, None, None), ("BINARY", BINARY, None, None),
     ("VARIANT", VARIANT, None, None), ("OBJECT", (VARIANT, OBJECT), None, None), ("ARRAY", (VARIANT, ARRAY), None, None),
+    # the same types spelled with a fractional seconds precision (what DESCRIBE TABLE and GET_DDL print)
+    ("TIMESTAMP_TZ(9)", TS_TZ, None, None), ("TIMESTAMP_TZ(3)", TS_TZ, None, None), ("TIMESTAMPTZ(6)", TS_TZ, None, None),
+    ("TIMESTAMP_NTZ(9)", TS_NTZ, None, None), ("TIMESTAMP_NTZ(3)", TS_NTZ, None, None), ("TIMESTAMPNTZ(6)", TS_NTZ, None, None),
+    ("TIMESTAMP(9)", TS_NTZ, None, None), ("TIMESTAMP(3)", TS_NTZ, None, None), ("TIMESTAMP(0)", TS_NTZ, None, None),
+    ("DATETIME(3)", TS_NTZ, None, None), ("DATETIME(9)", TS_NTZ, None, None), ("TIME(9)", TIME, None, None), ("TIME(3)", TIME, None, None),
+    ("VARCHAR(16777216)", TEXT, None, None), ("CHAR(3)", TEXT, None, None), ("NUMBER(38,0)", FIXED, 38, 0), ("DECIMAL", FIXED, 38, 0),
 ]
 
 
@@ -386,11 +392,29 @@ def _part_c(case: dict, env: core.Env) -> None:
     fs, conn = _shared()
     cur = conn.cursor()
     cur.execute(f"CREATE OR REPLACE TABLE DECL_T (C {decl})")
+    sample = {TS_TZ: "'2020-01-02 03:04:05.123456+00:00'", TS_NTZ: "'2020-01-02 03:04:05.123456'", TIME: "'03:04:05'"}.get(tc if isinstance(tc, int) else -1)
+    if sample:
+        cur.execute(f"INSERT INTO DECL_T VALUES ({sample})")
+    # the column declared here, added later, and the type used in a cast all describe alike
+    cur.execute("ALTER TABLE DECL_T ADD COLUMN C2 " + decl)
+    cur.execute(f"SELECT C, C2, CAST(C AS {decl}) AS C3 FROM DECL_T")
+    d3 = core.read_description(cur)
+    cur.fetchall()
+    if d3["ok"] and len({(x[1], x[4], x[5]) for x in d3["desc"]}) != 1:
+        env.witness(f"C06/declared/{decl}/column-vs-added-column-vs-cast", f"declared {decl}: CREATE TABLE column, ADD COLUMN and CAST describe as {d3['desc']}")
+    cur.execute("ALTER TABLE DECL_T DROP COLUMN C2")
     cur.execute("SELECT * FROM DECL_T")
     env.count("cmp_declared")
     d = core.read_description(cur)
-    cur.fetchall()
+    got_rows = cur.fetchall()
     conn.cursor().execute("DROP TABLE DECL_T")
+    if sample and d["ok"]:
+        import datetime as _dt
+        v = got_rows[0][0] if got_rows else None
+        want = {TS_TZ: lambda v: type(v) is _dt.datetime and v.tzinfo is not None, TS_NTZ: lambda v: type(v) is _dt.datetime and v.tzinfo is None,
+                TIME: lambda v: type(v) is _dt.time}[tc]
+        if not want(v):
+            env.witness(f"C06/declared/{decl}/python-value", f"declared {decl}: fetched {v!r} ({type(v).__name__})")
     if not d["ok"]:
         env.witness(f"C06/declared/{decl}/description-raises", str(d["exc"])[:300])
         return
